@@ -694,7 +694,6 @@ def slot_expected_content(case):
 
 
 def slot_expected_output(case, content):
-    name = case.get("name", "s")
     leaf = ("[%s]" if case.get("shape", "bare") == "bare" else '<div class="leaf">%s</div>') % content
     out = leaf
     for i in reversed(range(len(case["wrappers"]))):
@@ -1148,10 +1147,17 @@ def plan(tier, seed, scale=1.0):
     for which in ("js", "css"):
         for entry in entries:
             specs.append({"kind": "asset_enum", "which": which, "entries": [entry]})
-    # longest shards first
-    order = {"slot": 0, "attrs": 1, "asset": 2, "asset_enum": 3}
-    specs.sort(key=lambda s: order[s["kind"]])
-    return specs
+    # interleave the parts (all cores get a mix; the evidence samples come from all parts); enumerations first (longest)
+    by_kind = {}
+    for sp in specs:
+        by_kind.setdefault(sp["kind"], []).append(sp)
+    out = by_kind.pop("asset_enum", [])
+    queues = [by_kind[k] for k in ("attrs", "slot", "asset") if k in by_kind]
+    while any(queues):
+        for q in queues:
+            if q:
+                out.append(q.pop(0))
+    return out
 
 
 def check(case, col=None):
@@ -1183,8 +1189,9 @@ def run_shard(spec):
             col.count("C:enumerated")
             if nfail > 400:
                 break
-        col.exhaustive = True
+        col.exhaustive = nfail <= 400
         env.reset()
+        col.nt_samples = col.nt_samples[:1]
         return col
     if kind == "attrs":
         strat = attrs_strategy()
@@ -1196,6 +1203,9 @@ def run_shard(spec):
         raise ValueError(kind)
     hyp_search(strat, lambda case: check(case, col), col, max_examples=spec["n"], seed=spec["seed"], attribute=attribute)
     env.reset()
+    # one sample per shard, so that the merged evidence shows samples of every part
+    col.nt_samples = col.nt_samples[-1:]
+    col.samples = col.samples[:1]
     return col
 
 
